@@ -443,24 +443,32 @@ theorem subst_aux (ρ : Env K) (m : Mapping) (hm : MapOK m) (ι₀ : IdxEnv) :
 
 /-! ## Property theorems -/
 
-/-- **C21 (substitution lemma).**  For every well-formed expression `e` (any size), every mapping of
+/- NOTE (found by the rebuild-soundness package, recorded in DESIGN.md): `MapOK m` quantifies over every `TermData` with a mapped
+   key — including data with `cls = "Identity"` — so it holds only for mappings in which every lookup fails
+   (`MapOK_vacuous` in Props/C05Rebuild.lean).  The three lemmas below are therefore vacuous for every mapping that maps
+   something; they are kept (renamed, without the `C21_` prefix) only because other proofs reuse `subst_aux`.  The
+   property theorems are `C21_substitution_on`, `C21_replace_value_partial`, `C21_replace_wf_partial` in
+   Props/C05Rebuild.lean, stated with the satisfiable, decidable hypothesis `MapOKOn m e` and instantiated on concrete
+   non-trivial mappings there. -/
+
+/-- (vacuous hypothesis, see the note above) substitution lemma.  For every well-formed expression `e` (any size), every mapping of
     terminals to images of the same shape, every valuation, side, index environment and component:
     the substituted expression has the value of `e` under the valuation in which each mapped
     terminal takes the value of its image — through restrictions (the image is evaluated on the
     side the terminal is read on), variables, conditions and index notation. -/
-theorem C21_substitution (ρ : Env K) (m : Mapping) (hm : MapOK m) (ι₀ : IdxEnv) (side : Side) (ι : IdxEnv)
+theorem substitution_under_MapOK (ρ : Env K) (m : Mapping) (hm : MapOK m) (ι₀ : IdxEnv) (side : Side) (ι : IdxEnv)
     (e : Expr) (c : List Nat) (hw : WF e = true) (hg : GradFree m e = true) (hc : c.length = (shape e).length) :
     eval ρ side ι (substE m e) c = eval (substEnv ρ m ι₀) side ι e c :=
   (subst_aux ρ m hm ι₀).1 side ι e c hw hg hc
 
 /-- conditions are substituted consistently -/
-theorem C21_substitution_cond (ρ : Env K) (m : Mapping) (hm : MapOK m) (ι₀ : IdxEnv) (side : Side) (ι : IdxEnv)
+theorem substitution_cond_under_MapOK (ρ : Env K) (m : Mapping) (hm : MapOK m) (ι₀ : IdxEnv) (side : Side) (ι : IdxEnv)
     (p : Expr) (hw : WFC p = true) (hg : GradFree m p = true) :
     evalB ρ side ι (substE m p) = evalB (substEnv ρ m ι₀) side ι p :=
   (subst_aux ρ m hm ι₀).2.1 side ι p hw hg
 
 /-- substitution keeps shape and free indices (the result can stand wherever `e` stood) -/
-theorem C21_shape_fi (m : Mapping) (hm : MapOK m) (e : Expr) (hw : WF e = true) :
+theorem shape_fi_under_MapOK (m : Mapping) (hm : MapOK m) (e : Expr) (hw : WF e = true) :
     shape (substE m e) = shape e ∧ fi (substE m e) = fi e :=
   (subst_shape_fi m hm).1 e hw
 
@@ -559,7 +567,7 @@ theorem C21_rejects_shape (m : Mapping) (shapeOf : String → Option (List Nat))
   refine ⟨(key, img), hmem, ?_⟩
   simp [hs, hne]
 
-/-- non-vacuity: a concrete mapping and expression meeting the hypotheses of `C21_substitution`,
+/-- non-vacuity: a concrete mapping and expression meeting the hypotheses other than `MapOK`,
     with a visible effect (f ↦ g+g inside f*f under a restriction) -/
 def exF : Expr := .term { cls := "Coefficient", key := "f", shape := [] }
 def exG : Expr := .term { cls := "Coefficient", key := "g", shape := [] }
